@@ -422,7 +422,8 @@ Proof. split; [vm_compute; left; reflexivity|discriminate]. Qed.
 (* ================================================================== *)
 (** Second part: WHICH producer set a main-chain block was validated against.  As long as no
     reorganisation has failed in rollforward, it is the set in force after the block's own
-    parent; after a failed rollforward it need not be (refuted below: known finding F42). *)
+    parent; after a failed rollforward it need not be in the code before 05cfcb8b (f42 = false, refuted
+    below: F42, fixed). *)
 Section Parent.
   Variable iv : Z.
   Variable cluster_of : Z -> list Z.
@@ -730,10 +731,25 @@ Section Parent.
     { apply run_J; [|exact H]. split; cbn; [exact I|reflexivity]. }
     destruct HJ as [Hl _]. exact (linked_at _ _ _ _ _ E Hl).
   Qed.
+
+  (** general form kept for both values of the source flag *)
 End Parent.
 
-(** Without that hypothesis the statement is false of the faithful model (and of the code: the
-    corpus scenario stale-set-after-failed-reorg replays it on the real ChainService).  Main
+(** The code as it is (f42 = true: reorg() puts the consensus back on the best block when
+    rollforward fails, /repo commit 05cfcb8b): for EVERY history each main-chain block is a
+    child of the block below it and its signer owns its slot in the producer set in force
+    after THAT parent. *)
+Theorem connected_validated_against_parent iv cluster_of cap genesis evs pre b p post :
+  n_main (run iv cluster_of cap genesis true evs (init genesis)) = pre ++ b :: p :: post ->
+  b_parent b = b_id p /\
+  is_block_valid Z.eqb iv (cluster_of (b_id p)) (b_signer b) (b_ts b) = true.
+Proof.
+  apply connected_validated_against_parent_partial. left. reflexivity.
+Qed.
+
+(** Without the repair (f42 = false, the code before 05cfcb8b) and without that hypothesis the
+    statement is false of the faithful model (and was of the code: the corpus scenario
+    stale-set-after-failed-reorg replayed it on the real ChainService; it is now a regression case).  Main
     chain g-1-2 under the set M = [10;20;30]; branch g-3-4-5 where block 3 elects N = [40;50;60]
     and block 5 is signed by a non-member: the reorganisation to 5 fails after Update(4); then
     block 6, child of 2, signed by the member of N owning its slot, is connected although its
